@@ -23,14 +23,25 @@ NS = {'svg': gen.SVG, 'h': gen.XHTML}
 CUSTOM = {':--c1': 'div > *', ':--c2': ':is(input, button):enabled'}
 
 
-def doc_for(r):
+def doc_for(r, kind_override=None, foreign=False):
     if r.random() < 0.6:
         kind, top = gen.gen_state_doc(r)
     else:
         kind, top = gen.gen_doc(r)
+    kind = kind_override or kind
     # sprinkle foreign-namespace elements
-    if r.random() < 0.4 and top and top[-1][0] == 'e':
+    if (foreign or r.random() < 0.4) and top and top[-1][0] == 'e':
         top[-1][5].append(('e', 'svg', None, gen.SVG, [], [('e', 'circle', None, gen.SVG, [], [])]))
+        # more foreign elements at other places: per-call state must not leak from one element to the next
+        for _ in range(r.choice([0, 1, 2])):
+            holder = top[-1]
+            for _ in range(r.randint(0, 2)):
+                sub = [k for k in holder[5] if k[0] == 'e' and k[3] != gen.SVG]
+                if not sub:
+                    break
+                holder = r.choice(sub)
+            holder[5].insert(r.randint(0, len(holder[5])), ('e', r.choice(['circle', 'svg', 'a']), None, gen.SVG,
+                                                            [('class', ['c1'])] if r.random() < 0.3 else [], []))
     return kind, top
 
 
@@ -71,8 +82,20 @@ def light(r, names=None):
     s = t + ''.join(parts)
     if r.random() < 0.15:
         s = r.choice(['svg|circle', 'svg|*', 'h|div', '*|p', '|p', '*|*'])
+    if r.random() < 0.1:
+        s = mixed(r)
     if r.random() < 0.25:
         s = r.choice(pool) + r.choice([' ', ' > ', ' ~ ', ' + ']) + s
+    return s
+
+
+def mixed(r):
+    if True:
+        # an HTML-only pseudo-class evaluated before / beside a namespace-prefixed name
+        st = r.choice([':checked', ':disabled', ':required', ':link', ':default', ':enabled', ':read-write'])
+        nsn = r.choice(['svg|circle', 'svg|*', 'h|div', 'svg|a', 'h|*'])
+        s = r.choice([f':not({st}):is({nsn})', f'{st}, {nsn}', f'{nsn}:not({st})', f':is({st}, {nsn})', f'{nsn}, {st}',
+                      f':not({st}) > {nsn}', f':has(> {nsn}):not({st})', f':not({nsn}):not({st})'])
     return s
 
 
